@@ -118,9 +118,9 @@ Lemma live_reach : forall g m cols recs w c s,
   ((s = c /\ is_fcol g c = false) \/ (is_fcol g c = true /\ In (c, s) (fcols g))) ->
   reach g m s = true.
 Proof.
-  intros g m cols recs w c s Hd Hc Hs Hw Hst Hcase. unfold stale_hit in Hst.
+  intros g m cols recs w c s Hd Hc Hs Hw Hst Hcase. unfold stale_hit, stale_hit_k in Hst.
   rewrite Hd, (nonnil_In _ _ _ Hw) in Hst. cbn in Hst.
-  pose proof (existsb_false_In _ _ _ Hst s Hs) as H. cbn beta in H.
+  pose proof (existsb_false_In _ _ _ Hst s Hs) as H. cbn beta in H. cbn [andb] in H.
   apply orb_false_iff in H. destruct H as [H1 H2]. unfold reach.
   destruct Hcase as [[He Hf] | [Hf Hp]].
   - subst s. apply orb_true_iff. left. unfold via_self, edge_live. rewrite Hd, Hf.
@@ -169,7 +169,7 @@ Lemma step_UAdd : forall g t m p cols recs,
 Proof.
   intros g t m p cols recs [Hp HI] Hst Hun r Hr.
   pose proof (unprotected_false _ _ _ Hun r Hr) as Hu. clear Hun.
-  cbn [data_user data_doc rows] in Hr. cbn [xadd] in Hu. cbn [stale_user] in Hst.
+  cbn [data_user data_doc rows] in Hr. cbn [xadd] in Hu. unfold stale_user in Hst. cbn [stale_user_k andb] in Hst.
   unfold eff_dirty in *. cbn [mech_user mech_doc dirty prevent spec_user pm py] in *. rewrite Hp in *.
   unfold set_or in *. cbn [negb] in *. rewrite !andb_true_r in *.
   destruct (memz r (ids recs)) eqn:Em.
@@ -207,7 +207,7 @@ Proof.
   intros g t m p cols recs [Hp HI] Hst Hun r Hr.
   pose proof (unprotected_false _ _ _ Hun r Hr) as Hu. clear Hun.
   cbn [data_user data_doc rows] in Hr. destruct (HI r Hr) as [HI1 HI2].
-  cbn [xupd] in Hu. cbn [stale_user] in Hst. cbn [spec_user pm py].
+  cbn [xupd] in Hu. unfold stale_user in Hst. cbn [stale_user_k] in Hst. cbn [spec_user pm py].
   unfold eff_dirty in *. cbn [mech_user mech_doc dirty prevent] in *.
   set (cols' := trim_cols t cols recs) in *. set (recs' := trim_recs t cols' recs) in *.
   unfold set_or in *. rewrite Hp in *. cbn [orb] in *.
@@ -281,7 +281,7 @@ Lemma step_doc : forall g t m p xs d,
   J t m p xs -> stale_doc g m d = false ->
   J (data_doc t d) (mech_doc g m d) (spec_doc g t p d) (fun r => xs r || memz r (doc_adds d)).
 Proof.
-  intros g t m p xs d [J1 [J2 J3]] Hst. destruct d as [cols recs | cols recs | rs | c | c].
+  intros g t m p xs d [J1 [J2 J3]] Hst. unfold stale_doc in Hst. destruct d as [cols recs | cols recs | rs | c | c].
   - (* DAdd *) cbn [data_doc mech_doc spec_doc doc_adds]. split; [|split]; cbn [prevent ex pm py dirty rows].
     + intros r H. rewrite (J1 r H). reflexivity.
     + intros r H. apply orb_true_iff in H. destruct H as [H|H].
@@ -291,7 +291,7 @@ Proof.
       * rewrite !orb_true_r. split; intros; discriminate.
       * rewrite andb_false_r, !orb_false_r. apply in_app_or in Hr. destruct Hr as [Hr|Hr]; [apply J3; exact Hr|].
         apply memz_In in Hr. congruence.
-  - (* DUpd *) cbn [data_doc mech_doc spec_doc doc_adds stale_doc] in *.
+  - (* DUpd *) cbn [data_doc mech_doc spec_doc doc_adds stale_doc_k] in *.
     split; [|split]; cbn [prevent ex pm py dirty rows]; unfold set_or.
     + intros r H. apply orb_true_iff in H. destruct H as [H|H]; [rewrite (J1 r H); reflexivity|].
       rewrite H. apply orb_true_r.
@@ -336,7 +336,7 @@ Lemma steps_docs : forall g ds t m p xs,
 Proof.
   intros g ds. induction ds as [|d ds IH]; intros t m p xs HJ Hst.
   - cbn. eapply J_ext; [|exact HJ]. intros r. change (memz r []) with false. rewrite orb_false_r. reflexivity.
-  - cbn [stale_docs] in Hst. apply orb_false_iff in Hst. destruct Hst as [Hs1 Hs2].
+  - unfold stale_docs in Hst. cbn [stale_docs_k] in Hst. apply orb_false_iff in Hst. destruct Hst as [Hs1 Hs2].
     cbn [fold_left spec_docs]. pose proof (step_doc g t m p xs d HJ Hs1) as HJ'.
     pose proof (IH _ _ _ _ HJ' Hs2) as HJ''. eapply J_ext; [|exact HJ''].
     intros r. cbn beta. unfold dadd_ids. cbn [flat_map]. fold (dadd_ids ds). rewrite memz_app.
@@ -355,7 +355,7 @@ Proof.
     - intros r H. rewrite Hp in H. discriminate.
     - intros r H. discriminate.
     - intros r Hr. destruct (HI r Hr) as [A B]. split; intros; auto. }
-  cbn [stale_user] in Hst. pose proof (steps_docs g ds _ _ _ _ HJ Hst) as [J1 [J2 J3]].
+  unfold stale_user in Hst. cbn [stale_user_k] in Hst. pose proof (steps_docs g ds _ _ _ _ HJ Hst) as [J1 [J2 J3]].
   cbn [data_user mech_user spec_user xadd] in *.
   set (p' := spec_docs g t {| pm := pm p; py := py p; ex := fun _ => false |} ds) in *.
   intros r Hr. pose proof (unprotected_false _ _ _ Hun r Hr) as Hu. destruct (J3 r Hr) as [A B].
@@ -385,6 +385,38 @@ Proof.
   - apply step_UDocs; assumption.
 Qed.
 
+(* the two kinds of missing edge together are the missing edges *)
+Lemma stale_hit_split : forall g m cols recs,
+  stale_hit_k true false g m cols recs = false -> stale_hit_k false true g m cols recs = false ->
+  stale_hit_k true true g m cols recs = false.
+Proof.
+  intros g m cols recs. unfold stale_hit_k. destruct (is_default g && nonnil recs); [|reflexivity].
+  cbn [andb orb]. induction cols as [|c cols IH]; [reflexivity|]. cbn [existsb andb orb].
+  intros Ha Hb. apply orb_false_iff in Ha. destruct Ha as [Ha1 Ha2].
+  apply orb_false_iff in Hb. destruct Hb as [Hb1 Hb2]. rewrite orb_false_r in Ha1.
+  rewrite Ha1, Hb1. cbn [orb]. apply IH; assumption.
+Qed.
+
+Lemma stale_docs_split : forall g ds m,
+  stale_docs_k true false g m ds = false -> stale_docs_k false true g m ds = false ->
+  stale_docs_k true true g m ds = false.
+Proof.
+  intros g ds. induction ds as [|d ds IH]; intros m Ha Hb; [reflexivity|].
+  cbn [stale_docs_k] in *. apply orb_false_iff in Ha. destruct Ha as [Ha1 Ha2].
+  apply orb_false_iff in Hb. destruct Hb as [Hb1 Hb2]. apply orb_false_iff. split; [|apply IH; assumption].
+  destruct d; try reflexivity. cbn [stale_doc_k] in *. apply stale_hit_split; assumption.
+Qed.
+
+Lemma stale_user_split : forall g t m a,
+  stale_user_k true false g t m a = false -> stale_user_k false true g t m a = false ->
+  stale_user g t m a = false.
+Proof.
+  intros g t m a Ha Hb. unfold stale_user. destruct a as [cols recs | cols recs | ds]; cbn [stale_user_k] in *.
+  - exact Ha.
+  - apply stale_hit_split; assumption.
+  - apply stale_docs_split; assumption.
+Qed.
+
 Lemma actions_inv : forall g b t m p,
   Inv t m p -> any_flag (flag_actions g t m b) = false ->
   Inv (fst (mech_actions g t m b)) (snd (mech_actions g t m b)) (spec_actions g t p b).
@@ -392,11 +424,11 @@ Proof.
   intros g b. induction b as [|a b IH]; intros t m p HI Hf.
   - exact HI.
   - cbn [mech_actions spec_actions flag_actions] in *. unfold any_flag, or_flags in Hf.
-    cbn [fl_add fl_lost fl_stale fl_trim] in Hf.
+    cbn [fl_add fl_lost fl_stale fl_fstale fl_trim] in Hf.
     repeat (apply orb_false_iff in Hf; destruct Hf as [Hf ?]).
     repeat match goal with H : _ || _ = false |- _ => apply orb_false_iff in H; destruct H end.
     apply IH.
-    + apply step_user; assumption.
+    + apply step_user; try assumption. apply stale_user_split; assumption.
     + unfold any_flag. repeat (apply orb_false_iff; split); assumption.
 Qed.
 
